@@ -2679,7 +2679,7 @@ class PGPKey(Armorable, ParentRef, PGPObject):
 
         return _m
 
-    @KeyAction(is_unlocked=True, is_public=False)
+    @KeyAction(is_public=False)
     def decrypt(self, message):
         """
         Decrypt a PGPMessage using this key.
@@ -2699,13 +2699,19 @@ class PGPKey(Armorable, ParentRef, PGPObject):
             return message
 
         if self.fingerprint.keyid not in message.encrypters:
-            sks = set(self.subkeys)
+            # the component the message is encrypted to does the work, and it is its lock state that matters: the
+            # primary key may be locked, or a stub without secret material (gpg --export-secret-subkeys), while the
+            # encryption subkey is usable
             mis = set(message.encrypters)
-            if sks & mis:
-                skid = list(sks & mis)[0]
-                return self.subkeys[skid].decrypt(message)
+            candidates = [sk for skid, sk in self.subkeys.items() if skid in mis]
+            if candidates:
+                usable = [sk for sk in candidates if not sk.is_public and sk.is_unlocked]
+                return (usable or candidates)[0].decrypt(message)
 
             raise PGPError("Cannot decrypt the provided message with this key")
+
+        if not self.is_unlocked:
+            raise PGPError("Expected: is_unlocked == True. Got: False")
 
         pkesk = next(pk for pk in message._sessionkeys
                      if isinstance(pk, PKESessionKey) and pk.pkalg == self.key_algorithm and pk.encrypter == self.fingerprint.keyid)
